@@ -300,6 +300,16 @@ def execOp (opType name : String) (st : Store) (nodes : List Node) : Except Err 
       .ok ({ opType := opType, name := name, varDefs := fv.map fun v => (v.uname, v.ty), sels := sels,
              values := fv.map fun v => (v.uname, v.value) }, st')
 
+/-- what `execute_custom_operation` hands to `self.execute`:
+      self.execute(print_ast(operation_ast), variables=combined_variables["values"], operation_name=operation_name)
+    (the document is printed by graphql-core; the JSON body built from these three is the base client's, C11) -/
+structure Request where
+  query : Doc
+  variables : List (String × J)
+  operationName : String
+
+def Doc.request (d : Doc) : Request := { query := d, variables := d.values, operationName := d.name }
+
 /-! ### generated accessors and builder expressions -/
 
 structure ArgSpec where
